@@ -14,7 +14,8 @@ CONSTANTS EmitEdges, \* TRUE: every value-graph transition is printed too (histo
           KMut,     \* byte mutations are applied to values at depth < KMut
           KJson,    \* alternative / invalid JSON spellings are derived from values at depth < KJson
           KRe,      \* non-minimal TL2 re-encodings are derived from values at depth < KRe
-          KMut2     \* byte mutations of TL2 encodings are applied to values at depth < KMut2
+          KMut2,    \* byte mutations of TL2 encodings are applied to values at depth < KMut2
+          KFn       \* function results: result values up to KFn modifications, for requests at depth < KFn + 1
 
 VARIABLE st
 
@@ -58,7 +59,14 @@ Muts2(b) == Muts(b) \cup {[b EXCEPT ![j] = 255] : j \in 1..Len(b)} \cup {[b EXCE
 StepMut2 == /\ st.kind = "val" /\ st.k < KMut2 /\ TY(st.tn).tl2
             /\ \E m \in Muts2(Enc2(st.tn, st.v, FALSE)) : st' = [kind |-> "bytes2", tn |-> st.tn, b |-> m, k |-> 0]
 
-Next == StepVal \/ StepMut \/ StepJson \/ StepRe \/ StepMut2
+(* function results: the result type is instantiated with the nat fields of the request *)
+ResEnv(tn, q) == ArgsVal(TY(tn).resNa, NoEnv, TY(tn), q)
+StepFn == /\ st.kind = "val" /\ TY(st.tn).fn /\ KFn > 0 /\ st.k <= KFn
+          /\ st' = [kind |-> "fn", tn |-> st.tn, q |-> st.v, r |-> Default(TY(st.tn).res, ResEnv(st.tn, st.v)), k |-> 0]
+StepFnMod == /\ st.kind = "fn" /\ st.k < KFn
+             /\ \E w \in Mods(TY(st.tn).res, ResEnv(st.tn, st.q), st.r) : st' = [st EXCEPT !.r = w, !.k = @ + 1]
+
+Next == StepVal \/ StepMut \/ StepJson \/ StepRe \/ StepMut2 \/ StepFn \/ StepFnMod
 
 View == [st EXCEPT !.k = 0]
 
@@ -85,6 +93,16 @@ Payload ==
         hastl2 |-> TY(st.tn).tl2,
         tl2 |-> IF TY(st.tn).tl2 THEN Enc2(st.tn, st.v, FALSE) ELSE <<>>,
         json |-> WJ(st.tn, NoEnv, st.v, "canon")]
+  ELSE IF st.kind = "fn"
+  THEN LET t == TY(st.tn)  renv == ResEnv(st.tn, st.q)
+           e2 == Enc2(t.res, st.r, TRUE) IN
+       [kind |-> "fn", tn |-> st.tn, hastl2 |-> t.tl2, negzero |-> HasNegZero(t.res, st.r),
+        req |-> Bytes(Enc1(st.tn, NoEnv, st.q, FALSE)),
+        res1 |-> Bytes(Enc1(t.res, renv, st.r, t.resBare)),
+        res2 |-> IF ~t.tl2 THEN <<>>
+                 ELSE IF t.resAlias THEN Enc2(t.res, st.r, FALSE)
+                 ELSE Sized2(Body2(<<[present |-> e2 # <<>>, b |-> e2]>>, 0), FALSE),
+        resj |-> WJ(t.res, renv, st.r, "canon")]
   ELSE IF st.kind = "bytes2"
   THEN [kind |-> "bytes2", tn |-> st.tn, b |-> st.b,
         dec2ok |-> Dec2(st.tn, st.b, 1, Len(st.b)).ok]
@@ -122,6 +140,12 @@ Reenc2Equivalent ==
     LET b == ReBytes  d == Dec2(st.tn, b, 1, Len(b)) IN
     IF st.m = "oversize" THEN ~d.ok \/ TY(st.tn).alias
     ELSE d.ok /\ d.v = st.v /\ d.pos = Len(b) + 1
+(* result encodings decode back under the request's parameters *)
+FnResultRoundTrip ==
+  st.kind = "fn" /\ ~TY(st.tn).origin2 =>
+    LET t == TY(st.tn)  renv == ResEnv(st.tn, st.q)
+        e == Enc1(t.res, renv, st.r, t.resBare) IN
+    e.ok /\ LET d == Dec1(t.res, renv, e.b, 1, t.resBare) IN d.ok /\ d.v = st.r /\ d.pos = Len(e.b) + 1
 ValuesValid == st.kind = "val" /\ ~TY(st.tn).origin2 => Valid1(st.tn, NoEnv, st.v)
 (* whatever is accepted re-encodes, and the re-encoding decodes to the same value *)
 Canonical1 ==
